@@ -1,0 +1,53 @@
+//go:build verif
+
+// Package verifhook holds scheduling hooks used by the external verification
+// harness. With the "verif" build tag the hooks forward to a handler installed
+// by the harness; without a handler they do nothing.
+package verifhook
+
+import (
+	"context"
+	"sync/atomic"
+)
+
+// Handler receives the hook calls. Implementations decide from ctx whether
+// the call belongs to a harness-driven execution.
+type Handler interface {
+	Yield(ctx context.Context, point string)
+	Await(ctx context.Context, point string, ch <-chan struct{})
+	Expose(ctx context.Context, name string, v any)
+}
+
+type holder struct{ h Handler }
+
+var current atomic.Pointer[holder]
+
+// SetHandler installs (or, with nil, removes) the process-wide handler.
+func SetHandler(h Handler) {
+	if h == nil {
+		current.Store(nil)
+		return
+	}
+	current.Store(&holder{h: h})
+}
+
+// Yield marks a point where a test scheduler may interleave other work.
+func Yield(ctx context.Context, point string) {
+	if c := current.Load(); c != nil {
+		c.h.Yield(ctx, point)
+	}
+}
+
+// Await is placed just before a blocking receive on ch.
+func Await(ctx context.Context, point string, ch <-chan struct{}) {
+	if c := current.Load(); c != nil {
+		c.h.Await(ctx, point, ch)
+	}
+}
+
+// Expose hands an otherwise unreachable object to the harness.
+func Expose(ctx context.Context, name string, v any) {
+	if c := current.Load(); c != nil {
+		c.h.Expose(ctx, name, v)
+	}
+}
